@@ -352,7 +352,7 @@ theorem tyOf_negDM (g : Sig) (r : Bool) : ∀ (e : Expr), tyOf g e = some .bool 
     | false => simp only [negDM, Bool.false_eq_true, if_false, tyOf] at h ⊢; simp [h]
     | true => simp only [negDM, if_true, tyOf] at h ⊢; exact ih h
   | not e _ => intro h; exact tyOf_not h
-  | lit _ => intro h; simp [negDM, tyOf, h]
+  | lit _ => intro h; simp only [negDM, tyOf] at h ⊢; simp [h]
   | var _ => intro h; simp only [negDM, tyOf] at h ⊢; simp [h]
   | call _ _ _ => intro h; simp only [negDM]; simp only [tyOf] at h ⊢; simp [h]
   | prim _ _ _ _ _ => intro h; simp only [negDM]; simp only [tyOf] at h ⊢; simp [h]
@@ -445,13 +445,19 @@ theorem eval_or_assoc (s : Sem) (a b c : Expr) (t : List Event) :
 theorem eval_rotAnd (s : Sem) : ∀ (b a : Expr) (t : List Event), eval s (rotAnd a b) t = eval s (.and a b) t := by
   intro b
   induction b with
-  | and b c _ ihc => intro a t; rw [rotAnd, ihc, eval_and_assoc]
+  | and b c ihb ihc =>
+    intro a t
+    rw [rotAnd, ihc, ← eval_and_assoc]
+    simp only [eval, ihb]
   | _ => intro a t; rfl
 
 theorem eval_rotOr (s : Sem) : ∀ (b a : Expr) (t : List Event), eval s (rotOr a b) t = eval s (.or a b) t := by
   intro b
   induction b with
-  | or b c _ ihc => intro a t; rw [rotOr, ihc, eval_or_assoc]
+  | or b c ihb ihc =>
+    intro a t
+    rw [rotOr, ihc, ← eval_or_assoc]
+    simp only [eval, ihb]
   | _ => intro a t; rfl
 
 theorem tyOf_add {g : Sig} {a b : Expr} {τ : Ty} (h : tyOf g (.add a b) = some τ) :
@@ -491,13 +497,13 @@ theorem eval_add_assoc (g : Sig) (s : Sem) (ok : SemOk g s) (a b c : Expr)
                   have := ty_sound g s ok c .int t2 vc t3 hc hec
                   cases vc with
                   | bool z => simp [Val.ty] at this
-                  | int z => simp [evalAdd, Int.add_assoc]
+                  | int z => simp [Int.add_assoc]
 
 theorem tyOf_rotAnd (g : Sig) : ∀ (b a : Expr), tyOf g (rotAnd a b) = tyOf g (.and a b) := by
   intro b
   induction b with
-  | and b c _ ihc =>
-    intro a; rw [rotAnd, ihc]; simp only [tyOf]
+  | and b c ihb ihc =>
+    intro a; rw [rotAnd, ihc]; simp only [tyOf, ihb]
     by_cases h1 : tyOf g a = some .bool <;> by_cases h2 : tyOf g b = some .bool <;>
       by_cases h3 : tyOf g c = some .bool <;> simp [h1, h2, h3]
   | _ => intro a; rfl
@@ -505,8 +511,8 @@ theorem tyOf_rotAnd (g : Sig) : ∀ (b a : Expr), tyOf g (rotAnd a b) = tyOf g (
 theorem tyOf_rotOr (g : Sig) : ∀ (b a : Expr), tyOf g (rotOr a b) = tyOf g (.or a b) := by
   intro b
   induction b with
-  | or b c _ ihc =>
-    intro a; rw [rotOr, ihc]; simp only [tyOf]
+  | or b c ihb ihc =>
+    intro a; rw [rotOr, ihc]; simp only [tyOf, ihb]
     by_cases h1 : tyOf g a = some .bool <;> by_cases h2 : tyOf g b = some .bool <;>
       by_cases h3 : tyOf g c = some .bool <;> simp [h1, h2, h3]
   | _ => intro a; rfl
@@ -514,8 +520,8 @@ theorem tyOf_rotOr (g : Sig) : ∀ (b a : Expr), tyOf g (rotOr a b) = tyOf g (.o
 theorem tyOf_rotAdd (g : Sig) : ∀ (b a : Expr), tyOf g (rotAdd a b) = tyOf g (.add a b) := by
   intro b
   induction b with
-  | add b c _ ihc =>
-    intro a; rw [rotAdd, ihc]; simp only [tyOf]
+  | add b c ihb ihc =>
+    intro a; rw [rotAdd, ihc]; simp only [tyOf, ihb]
     by_cases h1 : tyOf g a = some .int <;> by_cases h2 : tyOf g b = some .int <;>
       by_cases h3 : tyOf g c = some .int <;> simp [h1, h2, h3]
   | _ => intro a; rfl
@@ -539,10 +545,11 @@ theorem eval_rotAdd (g : Sig) (s : Sem) (ok : SemOk g s) : ∀ (b a : Expr),
     tyOf g a = some .int → tyOf g b = some .int → ∀ t, eval s (rotAdd a b) t = eval s (.add a b) t := by
   intro b
   induction b with
-  | add b c _ ihc =>
+  | add b c ihb ihc =>
     intro a ha hbc t
     obtain ⟨hb, hc, _⟩ := tyOf_add hbc
-    rw [rotAdd, ihc (.add a b) (by simp [tyOf, ha, hb]) hc t, eval_add_assoc g s ok a b c ha hb hc]
+    rw [rotAdd, ihc (rotAdd a b) (by rw [tyOf_rotAdd]; simp [tyOf, ha, hb]) hc t, ← eval_add_assoc g s ok a b c ha hb hc]
+    simp only [eval, ihb a ha hb]
   | _ => intro a _ _ t; rfl
 
 /-- SimplifyParentheses does not change what a well-typed expression computes. -/
